@@ -1265,3 +1265,5 @@ if __name__ == '__main__':
         sys.stdout.write(txt)
     for m in metas:
         print('//', m['mode'], m['name'], m['file'], m['lines'], 'gen', m['gen_lines'], 'deltas', len(m['deltas']), 'lost', m.get('lost_anchors'), file=sys.stderr)
+        if m.get('demoted'):
+            print('// DEMOTED', m['name'], m.get('assemble_error'), file=sys.stderr)
